@@ -25,7 +25,7 @@ EXC_TEXT = {
 BODY_RAISES = '''
 spec = {spec!r}
 for k in range(spec["i"]):
-    channel.send(("item", k))
+    channel.send((7, k))
 raise {exc}  # MARK-RAISE
 '''
 
@@ -66,7 +66,7 @@ spec = {spec!r}
 sent = 0
 try:
     for k in range(spec["n"]):
-        channel.send(("item", k))
+        channel.send((7, k))
         sent += 1
 except OSError as e:
     W.observe("peer-send-oserror", sent)
@@ -79,7 +79,7 @@ except BaseException as e:
 
 SIBLING = '''
 for x in channel:
-    channel.send(("echo", x))
+    channel.send((8, x))
 '''
 
 
@@ -115,6 +115,9 @@ class ErrScn:
 
         def main():
             gw = S.open()
+            if P.get("reconf"):
+                # gateway-wide string coercion: error texts must not depend on it
+                gw.reconfigure(**P["reconf"])
             em = S.proc.execmodel
             spec = {"n": P["n"], "i": P["i"], "dropped": P["dropped"]}
             exc = EXC_SRC[P["exc"]]
@@ -145,7 +148,7 @@ class ErrScn:
                 ctl.receive()
                 try:
                     for k in range(P["n"]):
-                        c.send(("item", k))
+                        c.send((7, k))
                 except OSError:
                     w.observe("init-send-oserror")
                 peer_watch(c, "peer")
@@ -190,8 +193,9 @@ class ErrScn:
                 c2 = gw.remote_exec("channel.send(channel.receive() * 2)")
                 c2.send(21)
                 w.observe("fresh", c2.receive(timeout=10))
-                rs = gw.remote_status()
-                w.observe("remote-alive", rs.numexecuting >= 0)
+                if not P.get("reconf"):  # the status dict's keys are text: out of scope under coercion
+                    rs = gw.remote_status()
+                    w.observe("remote-alive", rs.numexecuting >= 0)
             except BaseException as e:  # noqa: BLE001
                 w.observe("fresh-exc", type(e).__name__, str(e)[:200])
             w.observe("main-done")
@@ -226,7 +230,7 @@ class ErrScn:
         if "main-done" not in d:
             return V("hang", "main thread never finished")
         # sibling undisturbed
-        if P.get("sibling", True) and d.get("sibling") != [([("echo", 1), ("echo", 2)],)]:
+        if P.get("sibling", True) and d.get("sibling") != [([(8, 1), (8, 2)],)]:
             return V("sibling-disturbed", f"sibling channel saw {d.get('sibling')}")
         # gateway survived
         if "fresh-exc" in d or d.get("hasreceiver") != [(True,)] or d.get("fresh") != [(42,)]:
@@ -234,7 +238,7 @@ class ErrScn:
         kind = P["kind"]
         if kind in ("body", "cb-worker"):
             got, errs = d["peer"][0]
-            want = [("item", k) for k in range(P["i"])] if kind == "body" else []
+            want = [(7, k) for k in range(P["i"])] if kind == "body" else []
             if got != want:
                 return V("items-before-error", f"peer received {got} before the error, expected {want}")
             if kind == "cb-worker" and P["dropped"]:
@@ -261,14 +265,14 @@ class ErrScn:
                     r = d.get("own-waitclose")
                     if not r or r[0][0] == "returned" or not r[0][1] or r[0][0] not in ("RemoteError", "EOFError"):
                         return V("failing-side-not-closed-properly", f"failing side's own channel: waitclose -> {r}")
-                if d.get("worker-seen") != [([("item", k) for k in range(min(P["i"], P["n"]))],)]:
+                if d.get("worker-seen") != [([(7, k) for k in range(min(P["i"], P["n"]))],)]:
                     return V("callback-items", f"worker callback saw {d.get('worker-seen')}")
                 if d.get("ctl") != [("closed",)]:
                     return V("worker-body-failed", f"control channel: {d.get('ctl')}")
         elif "sync-raise" in d:
             pass  # out of the quantifier: the callback raised in the caller's own thread
         else:
-            if d.get("init-seen") != [([("item", k) for k in range(min(P["i"], P["n"]))],)]:
+            if d.get("init-seen") != [([(7, k) for k in range(min(P["i"], P["n"]))],)]:
                 return V("callback-items", f"initiator callback saw {d.get('init-seen')}")
             if P["i"] < P["n"] and P["dropped"]:
                 pw = d.get("peer-waitclose")
@@ -342,6 +346,11 @@ def run(tier: str, only=None) -> int:
                 # main_thread_only runs one body at a time: no concurrently running sibling there
                 P2 = dict(C, transport=tr, backend=be, sibling=be != "main_thread_only")
                 harness.run_exploration(rep, PID, f"{name}/{tr}:{be}", ErrScn, P2, {"ps": 1, "free": 0}, max_execs=cap)
+        if C["exc"] in ("ValueError", "Custom") and C["i"] == 1 or tier == "thorough":
+            # the error path must not depend on the gateway's string coercion settings (items are ints)
+            for rc in ({"py3str_as_py2str": True}, {"py2str_as_py3str": False}, {"py3str_as_py2str": True, "py2str_as_py3str": False}):
+                P3 = dict(C, transport="popen", backend="thread", reconf=rc)
+                harness.run_exploration(rep, PID, f"{name}/reconf:{'+'.join(sorted(rc))}", ErrScn, P3, {"ps": 1, "free": 0}, max_execs=cap)
     return rep.finish()
 
 
